@@ -1,4 +1,9 @@
+#[cfg(not(arc_swap_verif))]
 use core::sync::atomic::{AtomicPtr, Ordering};
+#[cfg(arc_swap_verif)]
+use crate::verif::AtomicPtr;
+#[cfg(arc_swap_verif)]
+use core::sync::atomic::Ordering;
 
 use std::sync::RwLock;
 
